@@ -4,26 +4,28 @@ revert; record what the check reported in meta.json ("check") and print a markdo
 usage: tools/seed_report.py [names...]"""
 import json, os, subprocess, sys, tempfile, glob, re
 ROOT = os.path.dirname(os.path.dirname(os.path.abspath(__file__)))
-names = sys.argv[1:] or sorted(os.listdir(os.path.join(ROOT, "seeded")))
-if subprocess.run(["git", "-C", "/repo", "diff", "--quiet"]).returncode != 0:
-    sys.exit("/repo dirty")
+names = [a for a in sys.argv[1:] if not a.startswith("--")] or sorted(os.listdir(os.path.join(ROOT, "seeded")))
+import shutil
+SCR = os.path.join(tempfile.gettempdir(), "irohlint-report-scratch")
 for n in names:
     d = os.path.join(ROOT, "seeded", n)
     meta = json.load(open(os.path.join(d, "meta.json")))
+    if meta.get("check") and "--all" not in sys.argv:
+        continue
     pid = meta["property"]
-    if subprocess.run(["git", "-C", "/repo", "apply", os.path.join(d, "patch.diff")]).returncode != 0:
+    shutil.rmtree(SCR, ignore_errors=True)
+    os.makedirs(SCR)
+    subprocess.run("git -C /repo archive HEAD | tar -x -C %s" % SCR, shell=True, check=True)
+    if subprocess.run(["git", "apply", "-p1", os.path.join(d, "patch.diff")], cwd=SCR).returncode != 0:
         print("| %s | does not apply |" % n)
         continue
     ev = tempfile.mkdtemp()
-    try:
-        r = subprocess.run([os.path.join(ROOT, "check"), pid], env=dict(os.environ, VERIF_EVIDENCE_DIR=ev), stdout=subprocess.PIPE, stderr=subprocess.STDOUT, text=True)
-    finally:
-        subprocess.run(["git", "-C", "/repo", "checkout", "--", "."])
+    r = subprocess.run([os.path.join(ROOT, "check"), pid], env=dict(os.environ, VERIF_EVIDENCE_DIR=ev, IROH_REPO=SCR), stdout=subprocess.PIPE, stderr=subprocess.STDOUT, text=True)
+    shutil.rmtree(ev, ignore_errors=True)
     viol = [l.strip() for l in r.stdout.splitlines() if l.strip().startswith("violated:")]
-    keys = [re.search(r"\(key=([^)]*)\)\s*$", v).group(1) if re.search(r"\(key=([^)]*)\)\s*$", v) else v[:80] for v in viol]
-    meta["check"] = {"cmd": "./check %s --tier quick (patch applied to /repo, reverted afterwards)" % pid, "exit": r.returncode,
+    meta["check"] = {"cmd": "./check %s --tier quick (patch applied to a scratch export of /repo HEAD, IROH_REPO)" % pid, "exit": r.returncode,
                      "violation_line": any(l.startswith("VIOLATION property=%s" % pid) for l in r.stdout.splitlines()),
                      "reported": [v[:400] for v in viol[:6]]}
     json.dump(meta, open(os.path.join(d, "meta.json"), "w"), indent=1)
-    rules = sorted({k.split("|")[0] + ":" + k.split("|")[-1] for k in keys})
-    print("| %s | %s | exit %d | %s |" % (n, (meta.get("summary") or "")[:110].replace("|", "/"), r.returncode, "; ".join(rules)[:200]), flush=True)
+    print("%s exit %d %d violations" % (n, r.returncode, len(viol)), flush=True)
+shutil.rmtree(SCR, ignore_errors=True)
